@@ -37,7 +37,7 @@ def main():
         engines=[dict(name="coq-model+correspondence", path="/verif/coq, /verif/tools/check.py, /verif/tools/rs2coq.py, /verif/harness, /verif/model",
                       serves_properties=sorted(props.PROPS),
                       kind_free_text="machine-checked Coq 8.16 theorems about a hand-written executable model of the code; "
-                                     "constants regenerated from the source on every run (tools/gen_params.py); 67 kernel functions (scalar kernels, the Two-Way preprocessing incl. its while loops, pair selection) "
+                                     "constants regenerated from the source on every run (tools/gen_params.py); 69 kernel functions (scalar kernels, the Two-Way preprocessing incl. its while loops, pair selection) "
                                      "translated from the Rust source to Gallina on every run (tools/rs2coq.py -> coq/Gen/Code*.v) and "
                                      "proved equal to the model (coq/Gen/Tie*.v); the rest of the model tied to the code by a "
                                      "differential run of the extracted model and the real crate (results and load traces)")],
